@@ -88,9 +88,9 @@ def correspond(ctx):
     # completion check of another process committed at every pre-lock statement gap (SQL tap)
     par.run_parallel(ctx, 'harness.race_driver', 'run_chunk', RACE_CHUNKS)
     par.run_parallel(ctx, 'harness.engine_stream', 'run_chunk',
-                     [{'n_programs': ctx.n(8, 250), 'props': ['C03'], 'mode': 'plain'}] * 5 +
-                     [{'n_programs': ctx.n(8, 250), 'props': ['C03'], 'mode': 'ops'}] * 9)
-    par.run_parallel(ctx, 'harness.core_stream', 'run_chunk', [{'n_programs': ctx.n(8, 200), 'mode': 'mixed'}] * 14)
+                     [{'n_programs': ctx.n(8, 180), 'props': ['C03'], 'mode': 'plain'}] * 5 +
+                     [{'n_programs': ctx.n(8, 180), 'props': ['C03'], 'mode': 'ops'}] * 9)
+    par.run_parallel(ctx, 'harness.core_stream', 'run_chunk', [{'n_programs': ctx.n(8, 150), 'mode': 'mixed'}] * 14)
 
 
 def search(ctx):
